@@ -59,11 +59,12 @@ class PhaseGen:
             tgt = r.choice(PERSIST_INT + TEMPS + TEMPS)
             loops = []
             if r.random() < 0.2:
-                # loop bounds mention persistent variables and constants only: generated code evaluates the
-                # bounds of a guarded looped assignment even when the guard is false (known finding
-                # guarded_loop_bound_evaluated), which the interpreter does not
-                pv = [v for v in PERSIST_INT if v in self.avail] or ["<dt>"]
-                hi = r.choice([["int", 2], ["int", 0], ["nary", "min", [["var", r.choice(pv)], ["int", 3]]]])
+                # loop bounds may read anything available, per-step variables set only under the same guard
+                # and user-function calls included (fixed finding guarded_loop_bound_evaluated: generated
+                # code used to evaluate the bounds of a guarded looped assignment even when its guard was false)
+                pv = [v for v in PERSIST_INT + TEMPS if v in self.avail] or ["<dt>"]
+                hi = r.choice([["int", 2], ["int", 0], ["nary", "min", [["var", r.choice(pv)], ["int", 3]]],
+                               ["nary", "min", [g.int_expr(1), ["int", 3]]]])
                 loops = [["i", ["int", 0], hi]]
                 g.loopvars = ["i"]
                 if tgt in self.avail and r.random() < 0.7:
